@@ -277,12 +277,25 @@ def known_match(known, prop, cls, rep):
 
 
 def replay_fresh(path, expect_cls):
-    """Replay in a fresh interpreter; True iff the same violation class reproduces."""
+    """Replay in a fresh interpreter.  Returns (class reproduced or None, output).  A replay
+    that ends in ANOTHER violation class of the same property is still a confirmed violation
+    (a library whose behaviour has come to depend on memory addresses or on the allocator does
+    not fail the same way twice): the file is then re-labelled with the class it does
+    reproduce, so that replaying it reproduces what is reported."""
     r = subprocess.run([PY, os.path.join(HERE, "check.py"), "--replay", path, "--quiet"], capture_output=True, text=True, timeout=600)
     for line in r.stdout.splitlines():
         if line.startswith("REPRODUCED class="):
-            return line.split("=", 1)[1].strip() == expect_cls, r.stdout + r.stderr
-    return False, r.stdout + r.stderr
+            got = line.split("=", 1)[1].strip()
+            if got != expect_cls and got.split("/")[0] == expect_cls.split("/")[0]:
+                rep = json.load(open(path))
+                rep["violation_class_first_seen"] = rep.get("violation_class")
+                rep["violation_class"] = got
+                json.dump(rep, open(path, "w"), indent=1)
+                r2 = subprocess.run([PY, os.path.join(HERE, "check.py"), "--replay", path, "--quiet"], capture_output=True, text=True, timeout=600)
+                if ("REPRODUCED class=" + got) not in r2.stdout:
+                    return None, r.stdout + r.stderr + r2.stdout + r2.stderr
+            return (got if got.split("/")[0] == expect_cls.split("/")[0] else None), r.stdout + r.stderr
+    return None, r.stdout + r.stderr
 
 
 def main_check(prop, tier, seed, runs=None, budget=None, workers=None):
@@ -405,6 +418,7 @@ def finish(prop, tier, seed, t0, scratch, summaries, hs_summ, viols, herr, W, n_
     reported = []
     known_lines = []
     seen_cls = set()
+    tried = {}
     harness = list(herr)
     for v in sorted(viols, key=lambda d: (d["cls"], d["run"])):
         rep = json.load(open(v["path"]))
@@ -412,17 +426,25 @@ def finish(prop, tier, seed, t0, scratch, summaries, hs_summ, viols, herr, W, n_
         # stand in for a different failure that happens to fall into the same class
         e0 = known_match(known, prop, v["cls"], rep)
         key = (v["cls"], e0.get("id") if e0 else None)
-        if key in seen_cls:
+        if key in seen_cls or tried.get(key, 0) >= 3:
             continue
-        seen_cls.add(key)
+        tried[key] = tried.get(key, 0) + 1
         dest_dir = os.path.join(core.OUT_DIR, "replays", prop)
         os.makedirs(dest_dir, exist_ok=True)
         dest = os.path.join(dest_dir, os.path.basename(v["path"]))
         shutil.copyfile(v["path"], dest)
-        ok, outtxt = replay_fresh(dest, v["cls"])
-        if not ok:
+        got, outtxt = replay_fresh(dest, v["cls"])
+        if got is None:
+            # up to three candidates per class are tried before the class is given up
             harness.append("replay of %s in a fresh interpreter did not reproduce %s:\n%s" % (dest, v["cls"], outtxt[-2000:]))
             continue
+        if got != v["cls"]:
+            v = dict(v, cls=got)
+            rep = json.load(open(dest))
+            key = (got, None)
+            if key in seen_cls:
+                continue
+        seen_cls.add(key)
         e = known_match(known, prop, v["cls"], rep)
         if e is not None:
             known_lines.append("KNOWN-FINDING: property=%s %s [class %s, replay %s]" % (prop, e.get("what", ""), v["cls"], dest))
